@@ -123,7 +123,15 @@ def enum_with_method():
     return _pkg("wfq", [m]), {}
 
 
-FIXED_BUILDERS = {f.__name__: f for f in [two_readwrite_properties, enum_with_method]}
+def chained_assignment():
+    """fix e8e6187: `level = level = 1` registered the attribute twice (class record, stub)"""
+    c = Cls("Holder001", attrs=[Attr("level_002", None, "1", chained=True), Attr("plain_003", Ann("int"), "2")],
+            methods=[Func("get004", [], ret=Ann("int"))])
+    m = Module("wfr/mod_a.py", "wfr.mod_a", classes=[c], funcs=[Func("f005", [], ret=Ann("int"))])
+    return _pkg("wfr", [m]), {}
+
+
+FIXED_BUILDERS = {f.__name__: f for f in [two_readwrite_properties, enum_with_method, chained_assignment]}
 
 BUILDERS = {f.__name__: f for f in [enum_without_publicity_test, property_tuple_as_union, callable_attribute_untyped,
                                     none_result_suppresses_list, typevar_typed_attribute_dropped, private_class_as_type,
